@@ -83,6 +83,12 @@ Proof.
     rewrite Hn.
     assert (0 <= len v <= 31) by (unfold len; lia).
     replace (32 <? len v) with false by (symmetry; apply Z.ltb_ge; lia).
+    unfold slice_from.
+    assert (HL : len ([len v] ++ zeros (31 - length v) ++ v) = 32)
+      by (unfold len; rewrite !app_length, zeros_length; cbn [length]; lia).
+    rewrite HL.
+    replace ((0 <=? 32 - len v) && (32 - len v <=? 32)) with true
+      by (symmetry; apply andb_true_iff; split; apply Z.leb_le; lia).
     f_equal. rewrite app_assoc. apply skipn_app_exact.
     rewrite app_length, zeros_length. cbn [length]. unfold len. lia.
 Qed.
@@ -292,6 +298,20 @@ Section CodecProofs.
   Lemma hex_digit_ascii d : 0 <= d < 16 -> hex_digit d < 128.
   Proof. intros H. unfold hex_digit. destruct (d <? 10); lia. Qed.
 
+  Lemma hex_digit_is_hex d : 0 <= d < 16 -> is_hexb (hex_digit d) = true.
+  Proof.
+    intros H. assert (E : d = 0 \/ d = 1 \/ d = 2 \/ d = 3 \/ d = 4 \/ d = 5 \/ d = 6 \/ d = 7 \/ d = 8 \/ d = 9
+      \/ d = 10 \/ d = 11 \/ d = 12 \/ d = 13 \/ d = 14 \/ d = 15) by lia.
+    repeat (destruct E as [->|E]; [reflexivity|]). subst. reflexivity.
+  Qed.
+  Lemma hex_encode_all_hex l : all_bytes l -> forallb is_hexb (hex_encode l) = true.
+  Proof.
+    induction 1 as [|b t Hb Ht IH]; [reflexivity|]. cbn [hex_encode forallb]. unfold is_byte in Hb.
+    rewrite !hex_digit_is_hex, IH; [reflexivity| |].
+    - pose proof (Z.mod_pos_bound b 16). lia.
+    - split; [apply Z.div_pos; lia | apply Z.div_lt_upper_bound; lia].
+  Qed.
+
   Lemma hex_encode_ascii l : all_bytes l -> forall x t, hex_encode l = x :: t -> x < 128.
   Proof.
     intros Hl x t E. destruct l as [|b l']; [discriminate|]. cbn [hex_encode] in E. injection E as <- _.
@@ -347,7 +367,9 @@ Section CodecProofs.
     match parse_isize rest with Some v => Ok (CNumber v) | None => Err end.
   Proof. intros H. unfold pfx_num in *. cbn [List.app] in H. ft_dispatch H. Qed.
   Lemma from_text_scl rest : char_boundary_at4 (pfx_scl ++ rest) = true ->
-    from_text is_utf8 (pfx_scl ++ rest) = rmap CScalar (scalar_from_be_hex rest).
+    from_text is_utf8 (pfx_scl ++ rest) =
+    if (len rest <? 64) || negb (forallb is_hexb (firstn 64 rest)) then Err
+    else rmap CScalar (scalar_from_be_hex rest).
   Proof. intros H. unfold pfx_scl in *. cbn [List.app] in H. ft_dispatch H. Qed.
   Lemma from_text_rev rest : char_boundary_at4 (pfx_rev ++ rest) = true ->
     from_text is_utf8 (pfx_rev ++ rest) = Ok (CRevocation rest).
@@ -401,7 +423,8 @@ Section CodecProofs.
       assert (Hl : length (hex_encode (to_be 32 s)) = 64%nat) by (rewrite hex_encode_length, to_be_length; reflexivity).
       replace (len (hex_encode (to_be 32 s)) <? 64) with false
         by (symmetry; apply Z.ltb_ge; unfold len; rewrite Hl; lia).
-      rewrite <- Hl, firstn_all, hex_roundtrip by exact Hb.
+      rewrite <- Hl, firstn_all, hex_encode_all_hex by exact Hb. cbn [negb orb].
+      rewrite hex_roundtrip by exact Hb.
       unfold scalar_of_be. rewrite of_be_to_be_small.
       + replace (s <? rmod) with true by (symmetry; apply Z.ltb_lt; lia). reflexivity.
       + assert (rmod < 256 ^ Z.of_nat 32) by reflexivity. lia.
